@@ -171,6 +171,13 @@ def one_op_programs() -> list[Prog]:
             if op in ("-", "//", "%", "<<") and abs(lit) < 100:
                 n += 1
                 out.append(Prog(f"f{n}", f"def f{n}(a: int) -> int:\n    return {lit} {op} a\n", [("a", "int")], "int", f"{lit} {op} int"))
+    # mixed bool / int operands
+    for op in ["+", "-", "*", "//", "%", "&", "|", "^", "<<", ">>"]:
+        for pa, pb in (("bool", "int"), ("int", "bool"), ("bool", "bool")):
+            if pa == pb == "bool" and op in ("&", "|", "^"):
+                continue  # bool op bool stays a bool: covered by comparisons of the generated corpus
+            n += 1
+            out.append(Prog(f"f{n}", f"def f{n}(a: {pa}, b: {pb}) -> int:\n    return a {op} b\n", [("a", pa), ("b", pb)], "int", f"{pa} {op} {pb}"))
     for t in FIXED:
         for op in ["+", "-", "*", "//", "%", "&", "|", "^"]:
             n += 1
@@ -185,6 +192,15 @@ def one_op_programs() -> list[Prog]:
             for op in ("<<", ">>"):
                 n += 1
                 out.append(Prog(f"f{n}", f"from mypy_extensions import {t}\ndef f{n}(a: {t}) -> {t}:\n    return a {op} {sh}\n", [("a", t)], t, f"{t} {op} {sh}"))
+        # mixed bool / fixed-width operands (bool is promoted to the fixed-width type)
+        for op in ["+", "-", "*", "//", "%", "&", "|", "^"]:
+            n += 1
+            out.append(Prog(f"f{n}", f"from mypy_extensions import {t}\ndef f{n}(a: bool, b: {t}) -> {t}:\n    return a {op} b\n", [("a", "bool"), ("b", t)], t, f"bool {op} {t}"))
+            n += 1
+            out.append(Prog(f"f{n}", f"from mypy_extensions import {t}\ndef f{n}(a: {t}, b: bool) -> {t}:\n    return a {op} b\n", [("a", t), ("b", "bool")], t, f"{t} {op} bool"))
+        for op in CMPS:
+            n += 1
+            out.append(Prog(f"f{n}", f"from mypy_extensions import {t}\ndef f{n}(a: bool, b: {t}) -> bool:\n    return a {op} b\n", [("a", "bool"), ("b", t)], "bool", f"bool {op} {t}"))
         # conversions
         n += 1
         out.append(Prog(f"f{n}", f"from mypy_extensions import {t}\ndef f{n}(a: {t}) -> int:\n    return a\n", [("a", t)], "int", f"{t} -> int"))
